@@ -1,4 +1,5 @@
 """C09 — traversal (spec/traversal, harness/cmd/travdrv); C10 — directory manifests (spec/manifest, harness/cmd/mandrv)."""
+import os
 import random
 
 CHECKS = {}
@@ -106,7 +107,7 @@ CHECKS["C09"] = dict(
               "traversal.Traverse/GetChunkHashes/GetPyramid are judged by the TLA+ trace spec over address identifiers",
     level_text="TLC exhausts Traversal.tla over every file of up to 2B+B+2 chunks (scaled branching B=2/3: three chunk levels, lone-reference carries, "
                "repeated chunks, four tail classes) and small directories; the generator emits every single-file shape class (1-3 chunks, repeated "
-               "content, empty/1-byte/half/full tail; thorough: also B, B+1, B+2 chunks with the real B = 8192 / 4096) and random directories of "
+               "content, empty/1-byte/half/full tail; B, B+1, B+2 chunks with the real B = 8192 only on request, VERIF_C09_BIG=1) and random directories of "
                "1-6 files over file-like paths, plain and encrypted; T = W, D in W, P in W, D u P = W are evaluated by TraversalTrace.tla",
     level_note="trusted: TLC, the recording store (logs every Put), the driver's numbering of byte strings; addresses are compared as exact byte "
                "strings (32-byte store addresses); paths are file-like (no trailing '/': the directory walk of GetChunkHashes only lists entries "
@@ -120,8 +121,6 @@ CHECKS["C09"] = dict(
                _g09("sim", "dirs-ab", files=6, dir=1, pat=2, enc=0, alpha=2, num=70, depth=20, max=70, salt=2),
                _g09("sim", "dirs-enc", files=3, dir=1, pat=1, enc=1, alpha=2, num=6, depth=20, max=6, salt=3)],
         thorough=[_g09("exh", "files", files=1, dir=0, pat=3),
-                  _g09("exh", "big", files=1, dir=0, big=1, enc=0),
-                  _g09("exh", "big-enc", files=1, dir=0, big=1, enc=1, max=1),
                   _g09("exh", "dir1", files=1, dir=1, pat=1, enc=0, max=150),
                   _g09("sim", "dirs", files=6, dir=1, pat=3, enc=0, num=300, depth=20, max=300, salt=1),
                   _g09("sim", "dirs-ab", files=6, dir=1, pat=3, enc=0, alpha=2, num=300, depth=20, max=300, salt=2),
@@ -139,3 +138,11 @@ CHECKS["C09"] = dict(
                  "every uploaded file of a directory scenario is linked by at least one path; the manifest is stored once",
                  "keccak/BMT collision freedom: distinct chunks have distinct addresses"],
 )
+
+# Three chunk levels with the real constants need > 2 GiB (plain) per file: one such scenario costs ~16 CPU-minutes of hashing and
+# several GiB of RAM (traversal first reads the whole file as a manifest candidate, three times).  Not part of the tiers; opt in with
+# VERIF_C09_BIG=1 (adds B, B+1, B+2 chunk files, plain) or =2 (also one encrypted B+1 file) for the thorough tier.
+if os.environ.get("VERIF_C09_BIG") in ("1", "2"):
+    CHECKS["C09"]["gen"]["thorough"].append(_g09("exh", "big", files=1, dir=0, big=1, enc=0))
+    if os.environ.get("VERIF_C09_BIG") == "2":
+        CHECKS["C09"]["gen"]["thorough"].append(_g09("exh", "big-enc", files=1, dir=0, big=1, enc=1, max=1))
